@@ -29,11 +29,15 @@ func (g *obGen) build(emphasis string) {
 	g.inbox = map[string]string{}
 	g.nested = map[string]bool{}
 	nAct := 2 + r.Intn(5)
+	queryInboxes := r.Intn(4) == 0 // a peer that tells its inboxes apart by query string only
 	for i := 0; i < nAct; i++ {
 		id := fmt.Sprintf("https://%s/u/p%d", hostR, i)
 		in := id + "/inbox"
+		if queryInboxes {
+			in = fmt.Sprintf("https://%s/inbox.php?user=p%d", hostR, i)
+		}
 		if r.Intn(5) == 0 && i > 0 {
-			in = fmt.Sprintf("https://%s/u/p%d/inbox", hostR, i-1) // shared inbox
+			in = g.inbox[fmt.Sprintf("https://%s/u/p%d", hostR, i-1)] // shared inbox
 		}
 		g.docs[id] = J{"@context": asCtx, "type": Pick(r, []string{"Person", "Service", "Group"}), "id": id, "inbox": in, "outbox": id + "/outbox"}
 		g.inbox[id] = in
@@ -313,6 +317,13 @@ func genOutbox(r *Rng, prop string, k int, tier string) *RunSpec {
 				doc["bcc"] = st.Dave
 			}
 		}
+		if r.Intn(3) == 0 {
+			// the same value embedded twice (once directly, once inside the chain): each copy is a copy
+			doc = J{"type": "Announce", "id": fmt.Sprintf("https://%s/n/htwice", hostA), "actor": st.Alice.ID, "object": []interface{}{inner, doc}}
+			if r.Bool() {
+				doc["object"] = []interface{}{doc["object"].([]interface{})[1], inner}
+			}
+		}
 		doc["@context"] = asCtx
 		id := doc["id"].(string)
 		st.W.Servers[0].Docs = append(st.W.Servers[0].Docs, DocSpec{id, mustJSON(doc)})
@@ -326,6 +337,25 @@ func genOutbox(r *Rng, prop string, k int, tier string) *RunSpec {
 	if prop == "C03" && r.Intn(8) == 0 {
 		// the stored document of the sending actor is incomplete (no inbox): the post must fail, never leak
 		st.W.Servers[0].Docs = append(st.W.Servers[0].Docs, DocSpec{st.Alice.ID, mustJSON(J{"@context": asCtx, "type": "Person", "id": st.Alice.ID, "outbox": st.Alice.Outbox})})
+	}
+	if prop == "C03" && r.Intn(8) == 0 {
+		// the same documents in the vocabulary-prefixed spelling: under that @context as:bto IS bto
+		al := Pick(r, []string{"as", "a"})
+		for i := range reqs {
+			if reqs[i].Body != nil && (reqs[i].Kind == "postOutbox" || reqs[i].Kind == "send") {
+				if ab, ok := aliasBody(reqs[i].Body, al); ok {
+					reqs[i].Body = ab
+				}
+			}
+		}
+		docs := st.W.Servers[0].Docs
+		for i := range docs {
+			if strings.Contains(docs[i].ID, "/n/h") {
+				if ad, ok := aliasBody(docs[i].Doc, al); ok {
+					docs[i].Doc = ad
+				}
+			}
+		}
 	}
 	sp := mk(prop, st, reqs...)
 	sp.Gen = fmt.Sprintf("outbox/%s/%d", prop, k)
